@@ -117,7 +117,7 @@ func genSchemaValue(t *rapid.T, o tschema.GenOpts) (tschema.Schema, string, tsch
 }
 
 var c08Part = evid.Part[C08Case]{
-	Prop: "C08", Name: "views", Quick: 3000, Thorough: 300000,
+	Prop: "C08", Name: "views", Quick: 3000, Thorough: 1500000,
 	Rule: "acyclic schema (≤6 named types: structs map/tuple/stringjoin/listpairs with optional/nullable/renames, unions keyed/kinded/stringprefix, enums string/int, typed maps and lists with nullable values, links, Any) × typed value × builder program, on bindnode with inferred Go types; non-trivial = the value exercises ≥2 representation strategies or a maybe (absent/null) field, a non-first union member or a renamed field; distinct by (schema, type, value, program)",
 	Gen: func(t *rapid.T) C08Case {
 		s, typ, tv := genSchemaValue(t, tschema.GenOpts{MaxTypes: 6})
